@@ -96,7 +96,8 @@ PROPERTIES = {
         ],
         "outside": [
             "token boundaries chosen by the logos DFA on real text longer than the c11_dfa bound",
-            "the LR automaton itself",
+            "the LR automaton itself, the session loader that drives the lexer, cli fmt/check plumbing",
+            "lexing errors (logos Err) on sources longer than the c11_dfa bound: the streaming lexer ends the stream on Err, which is only safe as long as the token grammar has a catch-all rule",
         ],
     },
     "C10": {
@@ -114,7 +115,7 @@ PROPERTIES = {
             "span ends passed to the location translation are token boundaries of the same text (<= text length)",
         ],
         "outside": [
-            "the LR automaton, desugarer, resolver, type checker and ariadne rendering (most `expect` sites) are not encoded",
+            "the LR automaton, desugarer, resolver, type checker and diagnostic rendering (ariadne, Display of tokens, Display/to_report of ParseError) - most `expect` sites - are not encoded",
             "float literal text (dec2flt)",
             "inputs longer than the per-harness byte bounds",
         ],
